@@ -130,7 +130,13 @@ pub fn case_for(id: usize, src: &str, vars: &[(String, Value)]) -> Option<J> {
             Some(json!({"ev": "case", "id": id, "src": src, "text": crate::enc::cps(src), "ast": ast, "vars": run::vars_json(vars), "log": log, "out": out}))
         }
         run::Compiled::Err(_) => None,
-        run::Compiled::Panic(_) => None,
+        // a generated program on which the compiler panics or does not return: reported, not dropped
+        run::Compiled::Panic(m) => {
+            if run::too_many_timeouts() && m.contains("did not return") && id % 50 != 0 {
+                return None;
+            }
+            Some(json!({"ev": "case", "id": id, "src": src, "text": crate::enc::cps(src), "ast": {"k": "unspecified"}, "vars": run::vars_json(vars), "log": [], "out": {"k": "panic", "msg": m}}))
+        }
     }
 }
 
@@ -282,6 +288,27 @@ pub fn directed(profile: &str) -> Vec<(String, Vec<(String, Value)>)> {
                     out.push((format!("{}.map(x, t(1, x) > 1, {})", l, b), vars.clone()));
                     out.push((format!("{}.map(x, x != 0, {})", l, b), vars.clone()));
                 }
+            }
+        }
+        "c07" => {
+            // the range of a macro is evaluated completely, once, before the first element is visited; the arguments of a
+            // variadic call once each, left to right
+            let vars = env0(&[1, 2, 3]);
+            for m in ["all", "exists", "exists_one", "map", "filter"] {
+                for body in ["t(9, x) > 0", "t(9, x) > 1", "t(9, x) < 0", "t(9, x) == 2"] {
+                    let b = if m == "map" { "t(9, x)" } else { body };
+                    for range in ["[t(1, 1), t(2, 2), t(3, 3)]", "[t(1, 3), t(2, 1)]", "[t(1, 1)] + [t(2, 2)]", "{t(1, 1): t(2, 0), t(3, 2): t(4, 0)}", "[[t(1, 1), t(2, 2)], [t(3, 3)]][t(4, 0)]",
+                                  "h1([t(1, 1), t(2, 2)])[0]", "(tb(1) ? [t(2, 1), t(3, 2)] : [t(4, 3)])", "[t(1, 1), t(2, 2)].map(y, t(5, y))", "vl.map(y, t(5, y))"] {
+                        out.push((format!("{}.{}(x, {})", range, m, b), vars.clone()));
+                    }
+                }
+            }
+            for src in ["max(t(1, 1), t(2, 2), t(3, 3))", "min(t(1, 3), t(2, 2))", "max([t(1, 1), t(2, 2)])", "va(t(1, 1), t(2, 2), t(3, 3))", "t(1, 1).va(t(2, 2))", "min(min(t(1, 1), t(2, 2)), t(3, 0))",
+                        "max(max(max(t(1, 1))))", "h2(t(1, 1), t(2, 2))", "t(1, 5).m1(t(2, 6))", "size([t(1, 1), t(2, 2)])", "[t(1, 1), t(2, 2)].size()", "string(t(1, 1))", "t(1, 'a').contains(t(2, 'a'))",
+                        "t(1, 'a').matches(t(2, 'a'))", "[t(1, 1)].contains(t(2, 1))", "t(1, 1) in [t(2, 1), t(3, 1)]", "{t(1, 'a'): t(2, 1)}[t(3, 'a')]", "[t(1, 1), t(2, 2)][t(3, 0)]", "t(1, vm).a",
+                        "has(t(1, vm).a)", "t(1, true) ? t(2, 1) : t(3, 2)", "-t(1, 1)", "!t(1, true)", "t(1, 1) + t(2, 2) * t(3, 3)", "double(t(1, 1))", "int(t(1, '7'))", "duration(t(1, '1s'))",
+                        "timestamp(t(1, '2024-01-01T00:00:00Z')).getFullYear()"] {
+                out.push((src.to_string(), vars.clone()));
             }
         }
         "c14" => {
